@@ -1816,6 +1816,12 @@ func genSurface(rng *rand.Rand, name string, surf []lockstep.MethodInfo, frac in
 	p.Steps = append(p.Steps, Step{Step: "block", Txs: []Tx{{K: "ibtp", Src: "chainA:svc1", Dst: "chainB:svc1", Idx: 1, Typ: "REQ", T: 0, From: "u1"}}})
 	p.Steps = append(p.Steps, Step{Step: "block", Txs: []Tx{{K: "ibtp", Src: "chainA:svc1", Dst: "chainB:svc1", Idx: 1, Typ: "OK", From: "u2"}}})
 	p.Steps = append(p.Steps, Step{Step: "block", Txs: []Tx{{K: "ibtp", Src: "chainA:svc1", Dst: "chainB:svc1", Idx: 2, Typ: "REQ", T: 0, From: "u1"}}})
+	// a registered audit node: its account is the "node account" among the callers
+	p.Align = true
+	p.Steps = append(p.Steps, Step{Step: "submit", M: "RegisterNode", By: "@admin0", Obj: "x", Args: []string{"@nvp1", "nvpNode", "", "u64:0", "node1", "chainA", "r"}})
+	for i := 0; i < 3; i++ {
+		p.Steps = append(p.Steps, Step{Step: "vote", Pid: 0, By: fmt.Sprintf("@admin%d", i), Ballot: "approve"})
+	}
 	p.Steps = append(p.Steps, Step{Step: "open", M: "FreezeService", Obj: "chainB:svc1"})
 	strs := []string{"chainA", "chainB", "chainA:svc1", "chainB:svc1", "svc:chainA:svc1", "svc:chainB:svc1", "svc:chainA:svc1-1356:chainB:svc1-2",
 		"svc:chainA:svc1-1356:chainB:svc1-1", "@proposal", "@admin0", "@admin1", "@admin-chainA", "@admin-chainB", "@u3",
@@ -1845,7 +1851,7 @@ func genSurface(rng *rand.Rand, name string, surf []lockstep.MethodInfo, frac in
 		}
 		return "", false // not constructible through the transaction encoding
 	}
-	roles := []struct{ role, acct string }{{"outsider", "u3"}, {"otheradmin", "admin-CHAINA"}, {"otheradmin", "admin-chainB"}, {"govadmin", "@admin1"}}
+	roles := []struct{ role, acct string }{{"outsider", "u3"}, {"otheradmin", "admin-CHAINA"}, {"otheradmin", "admin-chainB"}, {"govadmin", "@admin1"}, {"nodeacct", "nvp1"}}
 
 	var calls []Tx
 	combo := 0
